@@ -9,7 +9,8 @@ and clear discards all in-flight items."
 
 The theorems are about the specification automaton `step`/`run` of Model/Pipeline.lean:
 `nodes : List Node` is an arbitrary pipeline shape (any length; per node: no_dependency or not,
-Pipe or FIFO of any depth in front, arbitrary stage functions `ret`/`gen`/`merge`), `ls : List
+Pipe or FIFO of any depth in front, arbitrary stage functions `ret`/`gen`/`merge`, arbitrary
+argument-validation predicate `guard` restricting when the stage may run), `ls : List
 Label` an arbitrary schedule (which combiners run, which decoupling pipes are entered, which
 data the environment supplies, when `clear` runs).  `run … = .ok …` says the schedule is
 enabled at every step; nothing else is assumed.  Histories (`Hist`, per node, since the last
@@ -55,7 +56,7 @@ theorem c28_exit_is_composition (nd0 : Node) (rest : List Node) (ls : List Label
     simp only [Composed, if_true] at hc
     exact ⟨h0, hs, rfl, hc.1, composed_linear rest h0.outs hs hign hc.2⟩
 
--- OBLIGATION c28_fields : the data of every combiner run in every enabled step is computed by the node's functions: required fields handed out = ret(input record), generated fields = gen(input, given), record written to the next link = merge(input, generated)
+-- OBLIGATION c28_fields : the data of every combiner run in every enabled step is computed by the node's functions: required fields handed out = ret(input record), generated fields = gen(input, given), record written to the next link = merge(input, generated); and the combiner ran only for an item accepted by the argument validation (guard) of the node's method
 theorem c28_fields (nodes : List Node) (s s' : State) (l : Label) (o : List NodeOut)
     (h : step nodes s l = .ok (s', o)) : WfOuts nodes o := by
   unfold step at h
@@ -123,11 +124,12 @@ theorem c28_live (d : Desc) (after : List Nat) (k : Nat) :
     middle stage and the sink stall, both links fill up, and a clear drops two items in flight -/
 example :
     let src : Node := { nodep := false, cap := 1, isPipe := true, ret := fun _ => [], entryVal := id,
-                        gen := fun _ x => x, merge := fun _ g => g }
+                        gen := fun _ x => x, merge := fun _ g => g, guard := fun _ => true }
     let inc : Node := { nodep := false, cap := 1, isPipe := true, ret := id, entryVal := id,
-                        gen := fun r _ => r.map fun p => (p.1, p.2 + 1), merge := fun _ g => g }
+                        gen := fun r _ => r.map fun p => (p.1, p.2 + 1), merge := fun _ g => g,
+                        guard := fun r => r != [(0, 0)] }
     let snk : Node := { nodep := false, cap := 2, isPipe := false, ret := id, entryVal := id,
-                        gen := fun _ _ => [], merge := fun _ _ => [] }
+                        gen := fun _ _ => [], merge := fun _ _ => [], guard := fun _ => true }
     let ev (f : Bool) (v : Nat) : Ev := { fire := f, x := [(0, v)], entry := none }
     let ls : List Label :=
       [⟨[ev true 10, ev false 0, ev false 0], false⟩,
